@@ -130,8 +130,71 @@ func runC13(w *core.World, r *core.Report) {
 		}
 		return "", false
 	}
+	// derived openers: an unexported helper that calls an opener, reports success only behind the
+	// opener's success edge, and after that edge returns nothing but success (or passes a closer)
+	for round := 0; round < 2; round++ {
+		for _, fn := range fns {
+			if openers[fn] || token.IsExported(fn.Name()) || closers[fn] != "" || !returnsError(fn) {
+				continue
+			}
+			oc := callsToSet(fn, openers)
+			if len(oc) == 0 {
+				continue
+			}
+			okAll := true
+			nilCut := core.NewCut()
+			for _, o := range oc {
+				for _, ce := range core.NilTestEdges(callErr(o)) {
+					if ce.Val {
+						nilCut.AddEdge(ce.E)
+					}
+				}
+			}
+			if in, _ := core.Reach(core.Entry(fn), isSuccessReturnPred(fn), nilCut); in != nil || len(nilCut.Edges) == 0 {
+				okAll = false
+			}
+			for _, o := range oc {
+				cut := core.NewCut().AddEdge(errNonNilEdges(callErr(o))...)
+				for _, c := range core.Calls(fn) {
+					if _, ok := isCloserCall(c); ok {
+						cut.AddInstr(c.(ssa.Instruction))
+					}
+				}
+				mayFail := func(in ssa.Instruction) bool {
+					ret, ok := in.(*ssa.Return)
+					if !ok {
+						return false
+					}
+					ev := core.ReturnError(ret)
+					if ev == nil || core.IsNilConst(ev) {
+						return false
+					}
+					var nils []core.Edge
+					for _, ce := range core.NilTestEdges(ev) {
+						if ce.Val {
+							nils = append(nils, ce.E)
+						}
+					}
+					if len(nils) > 0 {
+						if ok, _ := core.MustPass(ret, core.NewCut().AddEdge(nils...)); ok {
+							return false
+						}
+					}
+					return true
+				}
+				if in, _ := core.Reach(core.After(o.(ssa.Instruction)), mayFail, cut); in != nil {
+					okAll = false
+				}
+			}
+			if okAll {
+				openers[fn] = true
+				r.Touch(core.QName(fn))
+			}
+		}
+	}
 	// ---- R2 -----------------------------------------------------------------------------------
 	nops := 0
+	implicitOps := map[*ssa.Function]bool{}
 	for _, fn := range fns {
 		if openers[fn] || !token.IsExported(fn.Name()) {
 			continue
@@ -181,6 +244,7 @@ func runC13(w *core.World, r *core.Report) {
 			continue
 		}
 		nops++
+		implicitOps[fn] = true
 		r.Touch(core.QName(fn))
 		for _, o := range oc {
 			cut := core.NewCut().AddEdge(errNonNilEdges(callErr(o))...)
@@ -437,32 +501,62 @@ func runC13(w *core.World, r *core.Report) {
 	r.Floor("R4", "handle dereferences in Abort/Stop/Close", n4, 2)
 
 	// ---- R5 (b) -------------------------------------------------------------------------------
-	for fn, kind := range closers {
-		if kind != "commit" {
-			continue
-		}
-		// a closer that reads multi must commit only on the multi==false edge
-		var multiFalse []core.Edge
-		reads := false
+	// the committing closer used by the single operations (Put, Get) commits only on the
+	// multi==false edge - tested inside the closer or at its call site. The explicit closer
+	// (Stop) is not called by single operations and commits on the multi==true side by design.
+	multiFalseEdges := func(fn *ssa.Function) []core.Edge {
+		var out []core.Edge
 		for _, b := range fn.Blocks {
 			for _, in := range b.Instrs {
 				if v, ok := in.(ssa.Value); ok {
 					if _, f, ok := core.LoadedField(v); ok && f == "multi" {
-						reads = true
-						multiFalse = append(multiFalse, core.EdgesWhere(v, false)...)
+						out = append(out, core.EdgesWhere(v, false)...)
 					}
 				}
 			}
 		}
-		if !reads {
-			continue
-		}
-		for _, c := range core.CallsTo(fn, pgTxIface+".Commit") {
-			ok, path := core.MustPass(c.(ssa.Instruction), core.NewCut().AddEdge(multiFalse...))
-			r.Check(ok, "R5", core.QName(fn)+": single-operation commit only outside explicit mode", c.Pos(), "behind multi==false",
-				"a single operation commits the explicit transaction: writes become visible before Stop and survive an Abort: "+w.PathString(path))
-		}
+		return out
 	}
+	n5 := 0
+	seen5 := map[string]bool{}
+	for op := range implicitOps {
+		var visit func(fn *ssa.Function, depth int)
+		visit = func(fn *ssa.Function, depth int) {
+			for _, c := range core.Calls(fn) {
+				g := core.StaticCallee(c)
+				if g == nil {
+					continue
+				}
+				if closers[g] != "commit" {
+					if g.Parent() == fn && depth < 2 {
+						visit(g, depth+1) // deferred closure
+					}
+					continue
+				}
+				outer, _ := core.MustPass(c.(ssa.Instruction), core.NewCut().AddEdge(multiFalseEdges(fn)...))
+				if len(multiFalseEdges(fn)) == 0 {
+					outer = false
+				}
+				inner := multiFalseEdges(g)
+				for _, cc := range core.CallsTo(g, pgTxIface+".Commit") {
+					key := core.QName(g) + ": single-operation commit only outside explicit mode"
+					if seen5[key+w.Pos(cc.Pos())] && !outer {
+						continue
+					}
+					seen5[key+w.Pos(cc.Pos())] = true
+					n5++
+					ok, path := false, []*ssa.BasicBlock(nil)
+					if len(inner) > 0 {
+						ok, path = core.MustPass(cc.(ssa.Instruction), core.NewCut().AddEdge(inner...))
+					}
+					r.Check(ok || outer, "R5", key, cc.Pos(), "behind multi==false",
+						"a single operation commits the explicit transaction: writes become visible before Stop and survive an Abort: "+w.PathString(path))
+				}
+			}
+		}
+		visit(op, 0)
+	}
+	r.Floor("R5", "commits of the single-operation closer", n5, 1)
 }
 
 // isNamedResult: fn declares a named result with this name (only then does an assignment made in a
@@ -478,4 +572,10 @@ func isNamedResult(fn *ssa.Function, name string) bool {
 		}
 	}
 	return false
+}
+
+// returnsError: the last result of fn is an error.
+func returnsError(fn *ssa.Function) bool {
+	res := fn.Signature.Results()
+	return res.Len() > 0 && res.At(res.Len()-1).Type().String() == "error"
 }
